@@ -34,9 +34,43 @@ func (logSink) Write(p []byte) (int, error) {
 
 type baseRT struct{}
 
+// what the base transport answers: "ok" (resp, nil) | "fail" (nil, err) | "both" (resp, err)
+var baseMode = "ok"
+var baseResp *http.Response
+var baseErr error
+
 func (baseRT) RoundTrip(req *http.Request) (*http.Response, error) {
 	events = append(events, "B")
-	return &http.Response{StatusCode: 204, Status: "204 No Content", Body: http.NoBody, Header: http.Header{}, Request: req}, nil
+	baseResp, baseErr = nil, nil
+	if baseMode != "fail" {
+		baseResp = &http.Response{StatusCode: 204, Status: "204 No Content", Body: http.NoBody, Header: http.Header{}, Request: req}
+	}
+	if baseMode != "ok" {
+		baseErr = fmt.Errorf("scripted base error")
+	}
+	return baseResp, baseErr
+}
+
+// rtOut: one round trip with the base answering `mode`: which of the base's objects come back
+func rtOut(rt http.RoundTripper, mode string) string {
+	baseMode = mode
+	defer func() { baseMode = "ok" }()
+	req, _ := http.NewRequest("GET", "http://verif.invalid/x", nil)
+	resp, err := rt.RoundTrip(req)
+	rs, es := "nil", "nil"
+	if resp != nil {
+		rs = "other"
+		if resp == baseResp {
+			rs = "same"
+		}
+	}
+	if err != nil {
+		es = "other"
+		if err == baseErr {
+			es = "same"
+		}
+	}
+	return "resp=" + rs + " err=" + es
 }
 
 var mwCache = map[int]middleware.Middleware{}
@@ -145,6 +179,9 @@ func confObs(conf *shoot.RestConf, rt http.RoundTripper) [][2]string {
 		{"headers", showHeaders(conf.DefaultHeaders())},
 		{"mws", "[" + strings.Join(mws, ",") + "]"},
 		{"trace", tr},
+		{"rt.ok", rtOut(rt, "ok")},
+		{"rt.fail", rtOut(rt, "fail")},
+		{"rt.both", rtOut(rt, "both")},
 	}
 }
 
